@@ -270,3 +270,24 @@ Example C05_fresh_negotiation_nonvacuous :
   restart (step (mkCfg 2 1 true) Repaired f RCRp) = 2.
 Proof. exact fresh_nonvac. Qed.
 Print Assumptions C05_fresh_negotiation_nonvacuous.
+
+(* ---- Restore / Kill (entry points of fsm.go outside the property's event alphabet) ------------- *)
+
+(* Both are silent, stop the timer, and leave the handler state and lastReqID alone. *)
+Theorem C05_restore_kill_silent :
+  forall f,
+  outs (restore f) = [] /\ st (restore f) = Opened /\ armed (restore f) = false /\
+  restart (restore f) = 0 /\ hlog (restore f) = hlog f /\ lastReq (restore f) = lastReq f /\
+  outs (kill f) = [] /\ st (kill f) = Closed /\ armed (kill f) = false /\ hlog (kill f) = hlog f.
+Proof. exact restore_kill_silent. Qed.
+Print Assumptions C05_restore_kill_silent.
+
+(* Observations (not claimed as violations: Restore/Kill are not RFC events): after Restore a
+   renegotiation has no retransmission left; Kill in Opened reports no This-Layer-Down. *)
+Example C05_restore_kill_observations :
+  (let f := step default_cfg Repaired (restore init) (EInput 1 7 CGood []) in
+   st f = AckSent /\ restart f = 0 /\ st (step default_cfg Repaired f ETimeout) = Stopped) /\
+  (let f := run default_cfg Repaired init [EOpen; EUp; EInput 1 7 CGood []; EInput 2 1 CGood []] in
+   st f = Opened /\ st (kill f) = Closed /\ outs (kill f) = []).
+Proof. exact restore_kill_observations. Qed.
+Print Assumptions C05_restore_kill_observations.
